@@ -38,3 +38,24 @@ Theorem C43_conflicts_exact_same_schema :
   getc k (m_conf (table_merge true s s s b l r)) = spec_conflict_entry s s s b l r k.
 Proof. exact conflicts_exact_same_schema. Qed.
 Print Assumptions C43_conflicts_exact_same_schema.
+
+(* ---- round 2 ---- *)
+Theorem C43_resolve_preserves_mirror :
+  forall ci t conf idx,
+  NoDup (map fst conf) -> mirror ci idx t ->
+  mirror ci (resolve_idx ci t conf idx) (resolve false t conf).
+Proof. exact resolve_preserves_mirror. Qed.
+Print Assumptions C43_resolve_preserves_mirror.
+
+Theorem C43_conflict_keys_distinct :
+  forall fixed sb sl sr b l r, NoDup (map fst (m_conf (table_merge fixed sb sl sr b l r))).
+Proof. exact conflict_keys_distinct. Qed.
+Print Assumptions C43_conflict_keys_distinct.
+
+Theorem C43_built_index_mirrors : forall ci t, mirror ci (build_idx ci t) t.
+Proof. exact mirror_build. Qed.
+Print Assumptions C43_built_index_mirrors.
+
+Theorem C43_oracle_on_model : forall i, oracle i (model_obs i) = true.
+Proof. exact oracle_on_model. Qed.
+Print Assumptions C43_oracle_on_model.
